@@ -117,7 +117,7 @@ def c01_holds(m) -> bool:
     return free <= (pars | kins) and not (pars & kins)
 
 
-def check_case(m, renames_arg, rng=None, numeric: bool = True) -> tuple[list[dict], dict]:  # noqa: C901, PLR0912, PLR0915
+def check_case(m, renames_arg, rng=None, numeric: bool = True, pickle_check: bool = True) -> tuple[list[dict], dict]:  # noqa: C901, PLR0912, PLR0915
     """Run `m.rename_symbols(renames_arg)` and evaluate the clauses. Returns (failures, facts)."""
     import sympy as sp
 
@@ -128,6 +128,7 @@ def check_case(m, renames_arg, rng=None, numeric: bool = True) -> tuple[list[dic
     renames = dict(renames_arg)
     before = snapshot(m)
     r = m.rename_symbols(renames_arg)
+    facts["result"] = r
     if snapshot(m) != before:
         fails.append({"clause": "original", "what": "rename_symbols mutated the model it was called on"})
     if renames and r is m:
@@ -263,6 +264,9 @@ def check_case(m, renames_arg, rng=None, numeric: bool = True) -> tuple[list[dic
         bad("coupling", "parameter/kinematic-variable keys of the result are not exactly the images of the original keys",
             got=sorted(str(s) for s in key_syms_r), expected=sorted(str(mp[s]) for s in key_syms_m))
 
+    # ---- api / round trips
+    fails.extend(api_clause(m, r, renames, changed, do_pickle=pickle_check))
+
     # ---- numeric
     if numeric and rng is not None and kin_inj and not par_kin_clash and asm_preserved and not fails:
         try:
@@ -280,6 +284,80 @@ class _SkipNumeric(Exception):
     pass
 
 
+def api_clause(m, r, renames: dict, changed: dict, do_pickle: bool = True) -> list[dict]:
+    """Round-trip clause (HARDENING rule 8): the result is a HelicityModel of the same shape whose containers
+    behave like the original's — field types, reaction_info, ParameterValues lookup by symbol / name / index,
+    iteration, assignment, pickling."""
+    import pickle
+
+    out = []
+
+    def bad(what, **kw):
+        out.append({"clause": "api", "what": what, **{k: str(v)[:300] for k, v in kw.items()}})
+
+    if type(r) is not type(m):
+        bad("result is not of the class of the original", got=type(r).__name__)
+    for f in ("intensity", "amplitudes", "parameter_defaults", "kinematic_variables", "components", "reaction_info"):
+        if type(getattr(r, f)) is not type(getattr(m, f)):
+            bad(f"type of attribute {f} changed", got=type(getattr(r, f)).__name__, expected=type(getattr(m, f)).__name__)
+    if r.reaction_info != m.reaction_info:
+        bad("reaction_info changed")
+    for k in r.amplitudes:
+        if type(k) is not type(next(iter(m.amplitudes))):
+            bad("type of an amplitude key changed", key=k)
+            break
+    pd = r.parameter_defaults
+    items = list(pd.items())
+    names = [str(k) for k, _ in items]
+    if len(pd) != len(items) or list(pd) != [k for k, _ in items] or list(pd.keys()) != [k for k, _ in items] \
+            or [repr(v) for v in pd.values()] != [repr(v) for _, v in items]:
+        bad("ParameterValues iteration is inconsistent (len / iter / keys / values / items)")
+    for i, (k, v) in enumerate(items):
+        try:
+            by_sym, by_idx = pd[k], pd[i]
+            by_name = pd[str(k)]
+        except KeyError as e:
+            bad("ParameterValues lookup of an existing key raised KeyError", key=k, error=e)
+            break
+        first = items[names.index(str(k))][1]
+        if repr(by_sym) != repr(v) or repr(by_idx) != repr(v) or repr(by_name) != repr(first):
+            bad("ParameterValues lookup by symbol / index / name disagrees with items()", key=k,
+                got=(by_sym, by_idx, by_name), expected=(v, v, first))
+            break
+        pd[k] = v  # assignment of the same value through the public setter must be accepted and change nothing
+        if repr(pd[i]) != repr(v):
+            bad("ParameterValues assignment by symbol changed another entry", key=k)
+            break
+    if [repr(x) for x in pd.items()] != [repr(x) for x in items]:
+        bad("ParameterValues changed by re-assigning its own values")
+    # a renamed parameter is no longer found under its old name/symbol (unless that is a target as well)
+    new_names = {str(k) for k in pd}
+    for s in changed:
+        if s in m.parameter_defaults and s.name not in new_names:
+            for key in (s, s.name):
+                try:
+                    pd[key]
+                except KeyError:
+                    continue
+                bad("renamed parameter is still found under its old key", key=key)
+    # the original still answers under the old names
+    for k, v in m.parameter_defaults.items():
+        try:
+            if repr(m.parameter_defaults[k]) != repr(v):
+                bad("original ParameterValues lookup changed", key=k)
+        except KeyError:
+            bad("original ParameterValues lost a key", key=k)
+    if do_pickle:
+        try:
+            r2 = pickle.loads(pickle.dumps(r))
+        except Exception as e:  # noqa: BLE001
+            bad("renamed model cannot be pickled", error=f"{type(e).__name__}: {e}")
+        else:
+            if not same_model(r2, r) or type(r2) is not type(r):
+                bad("pickle round trip of the renamed model is not the identity")
+    return out
+
+
 def _momenta(rng, n_events):
     import numpy as np
 
@@ -289,25 +367,46 @@ def _momenta(rng, n_events):
     return np.column_stack([e, p])
 
 
+_COMPILED: dict = {}  # id(model) -> (model, compiled functions); the models of a run are kept alive by the harness
+
+
+def _compiled(m):
+    """Unfolded and lambdified kinematic-variable definitions and expression of a model (cached per object:
+    the first steps of all histories of one model evaluate the same original)."""
+    import sympy as sp
+
+    hit = _COMPILED.get(id(m))
+    if hit is not None and hit[0] is m:
+        return hit[1]
+    kin = []
+    for k, v in m.kinematic_variables.items():
+        vv = v.doit()
+        args = sorted(symbols_of(vv), key=lambda s: (s.name, str(sorted(s.assumptions0.items()))))
+        # array symbols are printed by name: give everything identifier-safe names first (definitions of
+        # aligned models also contain mass parameters)
+        safe = {a: sp.Symbol(f"mom{i}") for i, a in enumerate(args)}
+        kin.append((k, args, sp.lambdify([safe[a] for a in args], vv.xreplace(safe), "numpy", cse=True)))
+    expr = m.expression.doit()
+    eargs = sorted(symbols_of(expr), key=lambda s: (s.name, str(sorted(s.assumptions0.items()))))
+    f = sp.lambdify(eargs, expr, "numpy", cse=True, dummify=True)
+    if len(_COMPILED) > 64:
+        _COMPILED.clear()
+    _COMPILED[id(m)] = (m, (kin, expr, eargs, f))
+    return kin, expr, eargs, f
+
+
 def _evaluate(m, param_values: dict, data: dict, n_events: int):
     """Full chain: data (momentum symbol -> array) -> kinematic variables -> expression."""
     import numpy as np
-    import sympy as sp
 
+    kin, expr, args, f = _compiled(m)
     kin_vals = {}
     with np.errstate(all="ignore"):
-        for k, v in m.kinematic_variables.items():
-            vv = v.doit()
-            args = sorted(symbols_of(vv), key=lambda s: s.name)
-            missing = [a for a in args if a not in data]
+        for k, kargs, kf in kin:
+            missing = [a for a in kargs if a not in data and a not in param_values]
             if missing:
                 raise _SkipNumeric(f"kinematic variable {k} depends on {missing}")
-            # array symbols are printed by name: give them identifier-safe names first
-            safe = {a: sp.Symbol(f"mom{i}") for i, a in enumerate(args)}
-            f = sp.lambdify([safe[a] for a in args], vv.xreplace(safe), "numpy", cse=True)
-            kin_vals[k] = np.asarray(f(*[data[a] for a in args])) * np.ones(n_events)
-        expr = m.expression.doit()
-        args = sorted(symbols_of(expr), key=lambda s: (s.name, str(sorted(s.assumptions0.items()))))
+            kin_vals[k] = np.asarray(kf(*[data[a] if a in data else complex(param_values[a]) for a in kargs])) * np.ones(n_events)
         vals = []
         for a in args:
             if a in kin_vals:
@@ -316,7 +415,6 @@ def _evaluate(m, param_values: dict, data: dict, n_events: int):
                 vals.append(complex(param_values[a]))
             else:
                 raise _SkipNumeric(f"{a} is neither parameter nor kinematic variable")
-        f = sp.lambdify(args, expr, "numpy", cse=True, dummify=True)
         out = np.asarray(f(*vals), dtype=complex) * np.ones(n_events)
     return out, kin_vals, expr, args
 
@@ -329,10 +427,12 @@ def numeric_clause(m, r, mp, rng, n_events: int = 4) -> dict:
     mom_r = set()
     for v in r.kinematic_variables.values():
         mom_r |= symbols_of(v.doit())
+    mom_r -= set(r.parameter_defaults)
     data_r = {s: _momenta(rng, n_events) for s in sorted(mom_r, key=lambda s: s.name)}
     mom_m = set()
     for v in m.kinematic_variables.values():
         mom_m |= symbols_of(v.doit())
+    mom_m -= set(m.parameter_defaults)
     data_m = {}
     for s in mom_m:
         if mp.get(s, s) not in data_r:
